@@ -41,7 +41,8 @@ def run(ctx):
     modes = drv.QUICK_MODES if ctx.quick else drv.ALL_MODES
     nh = 200 if ctx.quick else 3000
     ctx.rule = ("history = 15-40 writes of 2-4 byte strings (incl. empty) under all five algorithms, same key / other "
-                "keys / by address, one-shot and streamed entry points, all modes, also after remove_hash; after "
+                "keys / by address, one-shot and streamed entry points, all modes, also after remove_hash and interleaved "
+                "with REFUSED re-writes of stored bytes (wrong declared size / integrity); after "
                 "EVERY write a census of content-v2 (path, length, sha256, inode) is compared with the expected set "
                 "{<algo>/<hex digest of data>}; sha* digests vs hashlib; xxh3 for determinism; afterwards the copy "
                 "under one algorithm is damaged and the entries under the other algorithms must still verify. "
@@ -78,6 +79,44 @@ def run(ctx):
                     expected.pop(ref.content_rel(a, hx), None)
                     del written[(algo, data)]
                     dup = False
+            cand = [(a0, d0) for (a0, d0) in written if a0 != "xxh3"]
+            if cand and rng.random() < 0.15:
+                # the same bytes arrive again through a write that gets REFUSED (wrong declared size / integrity): the
+                # stored copy must stay where it is, byte-identical, and no second copy may appear
+                a0, d0 = rng.choice(cand)
+                kind = rng.choice(["size+1", "size-1", "sri-of-other-data", "sri-in-other-algo"])
+                opts = {"algo": a0}
+                if kind == "size+1":
+                    opts["size"] = len(d0) + 1
+                elif kind == "size-1" and d0:
+                    opts["size"] = len(d0) - 1
+                elif kind == "sri-in-other-algo":
+                    opts["sri"] = ref.sri(rng.choice([x for x in ("sha1", "sha256", "sha384", "sha512") if x != a0]), d0)
+                else:
+                    opts["sri"] = ref.sri(a0, d0 + b"?")
+                rq = {"op": "writer", "cache": cache, "opts": opts, "chunks": [ctx.data(c) for c in gen.split(d0, gen.chunking(rng, len(d0))[1])]}
+                if rng.random() < 0.6:
+                    rq["key"] = rng.choice(keys + ["refused"])
+                b0 = census(cache)
+                rr = ctx.call(mode, rq)
+                a1 = census(cache)
+                steps.append([mode, rq])
+                ctx.count("refused_rewrites" if not ev.is_ok(rr) else "refused_rewrites_accepted")
+                ctx.case(distinct_key=("refused-rewrite", mode, a0, kind, ev.variant(rr)))
+                v0 = {p: v[:2] for p, v in b0.items()}
+                v1 = {p: v[:2] for p, v in a1.items()}
+                if not ev.is_ok(rr) and v0 != v1:
+                    missing = sorted(set(v0) - set(v1))
+                    extra = sorted(set(v1) - set(v0))
+                    changed = sorted(p2 for p2 in set(v0) & set(v1) if v0[p2] != v1[p2])
+                    what = (f"stored file missing {missing[0]}" if missing else f"second copy / stray file {extra[0]}" if extra
+                            else f"stored bytes changed {changed[0]}")
+                    ctx.violation(f"refused-rewrite|{mode}|{kind}|census",
+                                  f"bytes that are already stored were written again through a writer whose commit was refused "
+                                  f"({ev.brief(rr)[:80]}); afterwards the content area differs: {what}",
+                                  {"steps": steps[-12:], "response": rr, "missing": missing[:3], "extra": extra[:3], "changed": changed[:3]})
+                    ok = False
+                    break
             before = census(cache)
             req = make_req(ctx, rng, cache, ep, algo, key, data)
             steps.append([mode, req])
